@@ -586,6 +586,20 @@ def device_value_search(ctx, shim, r, n):
                               f"yields {' '.join(a[k:k + 2])} where the record's values and device deltas give {' '.join(b[k:k + 2])} "
                               f"(reply token {k}; xa:ya:xo:yo:chain:type)",
                               {"stage": "search", "stream": "device-values", "request": ln, "expected": e, "observed": o})
+    # permanent probe of F23: a Device table referenced from a PairValueRecord of a PairSet (PairPos FORMAT 1).  The oracle above
+    # hands the model what ttf-parser 0.25 delivers (`pairset_visible`: the device is absent); here the record is judged against
+    # the FONT: x_advance must change by the value plus the device delta of the size.
+    v1 = GD.mask_vr({"v": [0, 0, -50, 0], "dev": [None, None, {"start": 12, "fmt": 3, "deltas": [7, 0]}, None]}, 0x44)
+    pdata = GD.pair_subtable_f1({1: {2: (v1, GD.EMPTY_VR)}}, 0x44, 0)
+    pmodel = f"paird 1 1 1 {' '.join(GD.vr_tokens(v1, 12, 12))} {' '.join(GD.vr_tokens(GD.EMPTY_VR, 12, 12))} 1"
+    pln = subd_line((12, 12), 2, pdata, 0, "l", 0, [(1, BASE, 0), (2, BASE, 0)], pmodel, [[500, 0, 0, 0, 0, 0], [600, 0, 0, 0, 0, 0]])
+    po = vlib.run_lines(shim, [pln])[0]
+    pe = expected_subd(pln)
+    if po != pe:
+        ctx.violation("PairPos format 1: the Device table of a PairValueRecord is not applied (ppem 12: x_advance -50 and device delta "
+                      f"{GD.device_delta(v1['dev'][2], 12)} expected; the crate yields {po.split()[4] if len(po.split()) > 4 else po})",
+                      {"stage": "search", "stream": "device-values", "class": "pairset-device-dropped", "request": pln,
+                       "expected": pe, "observed": po})
     ctx.note_search("device-values", len(lines), live,
                     rule="SinglePos 1/2 and PairPos 1/2 subtables with random value formats over all eight bits and hinting Device / "
                          "VariationIndex tables, applied by the crate on a face with (ppem_x, ppem_y) at live sizes / elsewhere / 0, "
